@@ -227,3 +227,28 @@ package netsample
 //@ tag SampleQueueSize validate min=0
 //@ tag SampleQueueSize config sample-queue-size
 //@ tag FlushTime config flush-time
+
+// ---------------------------------------------------------------- aggregator adapters: a sample reaches the wrapped aggregator as it is
+
+//@ func WrapAggregator
+//@ props C06 C10
+//@ modifies nothing
+//@ ensures typeis(result, *aggregatorWrapper) && result.(*aggregatorWrapper).Aggregator == a
+
+//@ func UnwrapAggregator
+//@ props C06 C10
+//@ modifies nothing
+//@ ensures [a-wrapped-aggregator-is-taken-out] imp(typeis(a, *aggregatorWrapper), result == a.(*aggregatorWrapper).Aggregator)
+//@ ensures [anything-else-is-adapted] imp(!typeis(a, *aggregatorWrapper), typeis(result, *aggregatorUnwrapper) && result.(*aggregatorUnwrapper).Aggregator == a)
+
+//@ func (a *aggregatorWrapper) Report
+//@ props C06 C10
+//@ requires a.Aggregator != nil && typeis(s, *Sample)
+//@ at call a.Aggregator.Report assert [the-reported-sample] arg(sample) == s0.(*Sample)
+//@ ensures calls(a.Aggregator.Report) == 1
+
+//@ func (a *aggregatorUnwrapper) Report
+//@ props C06 C10
+//@ requires a.Aggregator != nil
+//@ at call a.Aggregator.Report assert [the-reported-sample] arg(s) == box(s0)
+//@ ensures calls(a.Aggregator.Report) == 1
